@@ -208,6 +208,79 @@ func TestVerif_C15_GroupLaw(t *testing.T) {
 	})
 }
 
+// c15ScaleBy multiplies all three projective coordinates by the field element l (canonical value, non-zero).
+func c15ScaleBy(p *SM2Point, l *big.Int) {
+	e, err := new(fiat.SM2Element).SetBytes(gen.Pad32(l))
+	if err != nil {
+		panic(err)
+	}
+	p.x.Mul(p.x, e)
+	p.y.Mul(p.y, e)
+	p.z.Mul(p.z, e)
+}
+
+var c15RInv = new(big.Int).ModInverse(gen.Two256, gen.P)
+
+// Conversions out of projective form on representatives (l*x : l*y : l) whose Z is STRUCTURED at word level — either its canonical
+// value or its Montgomery form has limbs from {0, 1, 2^32, 2^63, 2^64-1, ...} (Z = 2^64+1, 2^192+1, "low word 1", ...). The affine
+// point must not depend on the representative: all four conversions agree with the reference, and the encoding decodes back.
+func TestVerif_C15_Conversions(t *testing.T) {
+	rec := stats.Get("C15", "conversions")
+	rec.Rule("rapid: point [a]G (a from {0,1,2,3,n-1,n-2,small,uniform} or a tiny-x special point) in the representative (l*x : l*y : l) with l drawn limb by limb (gen.Limbs: sparse limbs 0/1/2/2^32-1/2^32/2^63/2^64-1 or mixed with uniform limbs), taken as the canonical value of Z or as its Montgomery form (l*2^-256); also the result of one more Double/Add on it. Oracle: Bytes(), Bytes_Unsafe() equal the reference encoding; GetAffineX(), GetAffineX_Unsafe() equal the reference x; IsInfinity; SetBytes(Bytes()) round-trips. Non-trivial: l != 1; distinct by (a, l, form, op).")
+	t.Cleanup(stats.FlushAll)
+	rapid.Check(t, func(t *rapid.T) {
+		W, wcls := c15Operand(t, "w")
+		l, lcls := gen.Limbs(t, "l")
+		form := gen.Pick(t, "form", "canonical", "canonical", "montgomery")
+		if form == "montgomery" {
+			l.Mul(l, c15RInv)
+		}
+		l.Mod(l, gen.P)
+		if l.Sign() == 0 {
+			l.SetInt64(1)
+		}
+		pt := c14FromRef(t, W)
+		c15ScaleBy(pt, l)
+		want := W
+		op := gen.Pick(t, "then", "none", "none", "none", "double", "addG")
+		switch op {
+		case "double":
+			pt.Double(pt)
+			want = sm2ref.Add(W, W)
+		case "addG":
+			pt.Add(pt, NewSM2Generator())
+			want = sm2ref.Add(W, sm2ref.G)
+		}
+		detail := fmt.Sprintf("point=%x l=%x (%s, %s) then=%s", sm2ref.Encode(W), l, lcls, form, op)
+		rec.Case(stats.Hash(sm2ref.Encode(W), l.Bytes(), []byte(form), []byte(op)), l.Cmp(big.NewInt(1)) != 0, "w:"+wcls, lcls, "form:"+form, "then:"+op)
+		if rec.WantSample(lcls + form) {
+			rec.Sample(lcls+form, map[string]interface{}{"point": fmt.Sprintf("%x", sm2ref.Encode(W)), "l": fmt.Sprintf("%x", l), "form": form, "then": op})
+		}
+		enc := sm2ref.Encode(want)
+		if gb := pt.Bytes(); !bytes.Equal(gb, enc) {
+			vt.Fail(t, rec, "C15:conv:bytes", "Bytes() wrong for a scaled representative\n%s\n got %x\nwant %x", detail, gb, enc)
+		}
+		if gb := pt.Bytes_Unsafe(); !bytes.Equal(gb, enc) {
+			vt.Fail(t, rec, "C15:conv:bytes-unsafe", "Bytes_Unsafe() wrong for a scaled representative\n%s\n got %x\nwant %x", detail, gb, enc)
+		}
+		if (pt.IsInfinity() == 1) != want.Inf {
+			vt.Fail(t, rec, "C15:conv:isinfinity", "IsInfinity wrong\n%s", detail)
+		}
+		if !want.Inf {
+			if x := pt.GetAffineX(); x.Cmp(want.X) != 0 {
+				vt.Fail(t, rec, "C15:conv:affinex", "GetAffineX() wrong\n%s\n got %x", detail, x)
+			}
+			if x := pt.GetAffineX_Unsafe(); x.Cmp(want.X) != 0 {
+				vt.Fail(t, rec, "C15:conv:affinex-unsafe", "GetAffineX_Unsafe() wrong\n%s\n got %x", detail, x)
+			}
+		}
+		back, err := NewSM2Generator().SetBytes(pt.Bytes_Unsafe())
+		if err != nil || !bytes.Equal(back.Bytes(), enc) {
+			vt.Fail(t, rec, "C15:conv:roundtrip", "SetBytes(Bytes_Unsafe(P)) failed: %v\n%s", err, detail)
+		}
+	})
+}
+
 // verifProp_C15_Decode builds the property (shared by the rapid test and the native fuzz target).
 func verifProp_C15_Decode() func(*rapid.T) {
 	rec := stats.Get("C15", "decode")
